@@ -872,6 +872,10 @@ def plan(prop, tier, seed, known):
             jobs.append({"name": "%scrash%d" % (cmd, i), "module": mod + ".tla", "cfg": mod + ".cfg",
                          "driver": [cmd, "-seed", str(seed * 100 + 50 + i), "-segs", "2" if q else "4", "-steps", "60", "-disk", "2000",
                                     "-crashpoints", "-loss", "2" if q else "6", "-avoid", av]})
+        if prop == "C17":   # through the XDR/RPC path (cmd/simple-nfsd registers the same tables)
+            for i in range(1 if q else 8):
+                jobs.append({"name": "simplerpc%d" % i, "module": mod + ".tla", "cfg": mod + ".cfg",
+                             "driver": [cmd, "-seed", str(seed * 100 + 40 + i), "-segs", "4" if q else "10", "-steps", "400", "-disk", "2000", "-avoid", av, "-transport"]})
         lmod = "SimpleLin" if prop == "C17" else "KvsLin"
         for i in range(3 if q else 24):   # concurrent clients on the same file / overlapping key sets; linearizability search
             jobs.append({"name": "%sconc%d" % (cmd, i), "kind": "slin", "module": lmod, "prop": prop,
